@@ -40,8 +40,9 @@ CLAIMS = {
         ref="4 C20"),
 
     "C01": dict(
-        technique="static analysis: THIR case-table evaluation of the encoder (emission table) + regex algebra on the emitted text (language equality with reference, flag typestate)",
-        text="The encoder is a syntax-directed translation; conformance follows by structural induction from finitely many "
+        technique="static analysis: emitted program vs. an independently written reference language, as automata, on an expression catalogue; THIR case-table evaluation of the encoder (emission table) + regex algebra on the emitted text (language equality with reference, flag typestate)",
+        text="On every buildable catalogue expression with a crisp reference (no tree wildcard inside a branch, no class) the program encode::compile emits has exactly the language the README gives to the expression (catalogue shapes only). "
+             "The encoder is a syntax-directed translation; conformance follows by structural induction from finitely many "
              "obligations that are decided on the text it emits in every case (grouping x context x position x token "
              "shape): leaf languages (separator-free, right length, literals only through regex::escape under an explicit "
              "flag), tree-wildcard fragment = reference language R(left, right, rooted) over {SEP, NL, OTHER}, classes "
@@ -61,8 +62,9 @@ CLAIMS = {
              "between-capture text. Known finding: rooted first tree wildcard captures half a component (pinned by a test).",
         ref="4 C04"),
     "C07": dict(
-        technique="static analysis: THIR case-table of the context update (homomorphism equation) + emission table for branches + who-may-call for any",
-        text="Decides the three finite obligations from which the composition laws follow by induction: the context "
+        technique="static analysis: emitted program vs. a compositional reference language on an expression catalogue (= C01.whole); THIR case-table of the context update (homomorphism equation) + emission table for branches + who-may-call for any",
+        text="On the catalogue the emitted program equals a compositional reference (union, m..n-fold concatenation, in place), so wrapping, substitution and unrolling cannot change a language there. "
+             "Decides the three finite obligations from which the composition laws follow by induction: the context "
              "passed to a nested branch preserves (has-left, has-right) over all 5x4 inputs and both branch kinds; "
              "alternation/repetition/concatenation arms are a homomorphism (language-level comparison with holes); "
              "token::any builds one alternation of all inputs in order and crate::any compiles that same tree.",
